@@ -6,6 +6,7 @@ import AnthemModel.Proofs.SubstFull
 import AnthemModel.Proofs.RewritesBasic
 import AnthemModel.Proofs.RewritesQuant
 import AnthemModel.Proofs.Decompose
+import AnthemModel.Proofs.ChooseFresh
 namespace Anthem
 
 /-- re-assign the variables of `vs` to default values of their sorts -/
@@ -266,6 +267,606 @@ theorem substituteDefinedVariables_classEquiv (F : Formula) :
       cases hd : findDefinition v b with
       | none => exact Iff.rfl
       | some d => exact defined_step I vs v (hl v List.mem_cons_self) b d hd ρ
+  · exact Iff.rfl
+
+/-! ## simplify_transitive_equality -/
+
+theorem asVar?_some {t : GTerm} {v : Var} (h : t.asVar? = some v) : t = v.toTerm := by
+  cases t with
+  | var x => simp [GTerm.asVar?] at h; subst h; rfl
+  | int it => cases it <;> simp [GTerm.asVar?] at h; subst h; rfl
+  | symb st => cases st <;> simp [GTerm.asVar?] at h; subst h; rfl
+  | inf | sup | fc _ => simp [GTerm.asVar?] at h
+
+theorem isVarIn_some {vars : List Var} {t : GTerm} {v : Var} (h : isVarIn vars t = some v) :
+    v ∈ vars ∧ t = v.toTerm := by
+  unfold isVarIn at h
+  cases ha : t.asVar? with
+  | none => simp [ha] at h
+  | some w =>
+    simp only [ha] at h
+    split at h
+    · injection h with h; subst h; exact ⟨by assumption, asVar?_some ha⟩
+    · cases h
+
+theorem subsort_compat {k d : Var} (h : subsort k d = true) : SortCompatible d k.toTerm := by
+  obtain ⟨kn, ks⟩ := k
+  obtain ⟨dn, ds⟩ := d
+  cases ks <;> cases ds <;> simp [subsort] at h <;>
+    exact ⟨fun e => (by first | (cases e; done) | exact ⟨.var kn, rfl⟩),
+           fun e => (by first | (cases e; done) | exact ⟨.var kn, rfl⟩)⟩
+
+/-- the comparison `c` read as a chain -/
+def EqHolds (fc : FcI) (ρ : Asg) (c : Cmp) : Prop := cmpChain fc ρ (c.1.eval fc ρ) c.2
+
+theorem eqHolds_single (fc : FcI) (ρ : Asg) (l r : GTerm) :
+    EqHolds fc ρ (l, [⟨.eq, r⟩]) ↔ l.eval fc ρ = r.eval fc ρ := by
+  simp [EqHolds, cmpChain, Rel.holds]
+
+/-- what `transitive_equality` guarantees about its answer -/
+def TEFacts (c1 c2 : Cmp) (vars : List Var) (k d : Var) (dt : Cmp) : Prop :=
+  k ∈ vars ∧ d ∈ vars ∧ subsort k d = true ∧
+  ∃ (kc : Cmp) (t : GTerm), ((kc = c1 ∧ dt = c2) ∨ (kc = c2 ∧ dt = c1)) ∧
+    ∀ (fc : FcI) (ρ : Asg), (EqHolds fc ρ kc ↔ k.toTerm.eval fc ρ = t.eval fc ρ) ∧
+      (EqHolds fc ρ dt ↔ d.toTerm.eval fc ρ = t.eval fc ρ)
+
+theorem pick_facts {v1 v2 : Var} {c1 c2 : Cmp} {vars : List Var} {k d : Var} {dt : Cmp}
+    (hv1 : v1 ∈ vars) (hv2 : v2 ∈ vars) (t : GTerm)
+    (h1 : ∀ (fc : FcI) (ρ : Asg), EqHolds fc ρ c1 ↔ v1.toTerm.eval fc ρ = t.eval fc ρ)
+    (h2 : ∀ (fc : FcI) (ρ : Asg), EqHolds fc ρ c2 ↔ v2.toTerm.eval fc ρ = t.eval fc ρ)
+    (h : pickKeepDrop v1 v2 c1 c2 = some (k, d, dt)) : TEFacts c1 c2 vars k d dt := by
+  unfold pickKeepDrop at h
+  split at h
+  · rename_i hs
+    injection h with h; injection h with ha hb; injection hb with hb hc
+    subst ha; subst hb; subst hc
+    exact ⟨hv1, hv2, hs, c1, t, Or.inl ⟨rfl, rfl⟩, fun fc ρ => ⟨h1 fc ρ, h2 fc ρ⟩⟩
+  · split at h
+    · rename_i hs
+      injection h with h; injection h with ha hb; injection hb with hb hc
+      subst ha; subst hb; subst hc
+      exact ⟨hv2, hv1, hs, c2, t, Or.inr ⟨rfl, rfl⟩, fun fc ρ => ⟨h2 fc ρ, h1 fc ρ⟩⟩
+    · cases h
+
+theorem transitiveEquality_some {l1 r1 l2 r2 : GTerm} {vars : List Var} {k d : Var} {dt : Cmp}
+    (h : transitiveEquality (l1, [⟨.eq, r1⟩]) (l2, [⟨.eq, r2⟩]) vars = some (k, d, dt)) :
+    TEFacts (l1, [⟨.eq, r1⟩]) (l2, [⟨.eq, r2⟩]) vars k d dt := by
+  unfold transitiveEquality at h
+  simp only at h
+  cases a1 : isVarIn vars l1 with
+  | some v1 =>
+    obtain ⟨hv1, e1⟩ := isVarIn_some a1
+    simp only [a1] at h
+    cases a2 : isVarIn vars l2 with
+    | some v2 =>
+      obtain ⟨hv2, e2⟩ := isVarIn_some a2
+      simp only [a2] at h
+      split at h
+      · rename_i he
+        refine pick_facts hv1 hv2 r1 (fun fc ρ => ?_) (fun fc ρ => ?_) h
+        · rw [eqHolds_single, e1]
+        · rw [eqHolds_single, e2, he]
+      · cases h
+    | none =>
+      simp only [a2] at h
+      cases a3 : isVarIn vars r2 with
+      | some v2 =>
+        obtain ⟨hv2, e2⟩ := isVarIn_some a3
+        simp only [a3] at h
+        split at h
+        · rename_i he
+          refine pick_facts hv1 hv2 r1 (fun fc ρ => ?_) (fun fc ρ => ?_) h
+          · rw [eqHolds_single, e1]
+          · rw [eqHolds_single, e2, he]; exact eq_comm
+        · cases h
+      | none => simp [a3] at h
+  | none =>
+    simp only [a1] at h
+    cases a1' : isVarIn vars r1 with
+    | some v1 =>
+      obtain ⟨hv1, e1⟩ := isVarIn_some a1'
+      simp only [a1'] at h
+      cases a2 : isVarIn vars l2 with
+      | some v2 =>
+        obtain ⟨hv2, e2⟩ := isVarIn_some a2
+        simp only [a2] at h
+        split at h
+        · rename_i he
+          refine pick_facts hv1 hv2 l1 (fun fc ρ => ?_) (fun fc ρ => ?_) h
+          · rw [eqHolds_single, e1]; exact eq_comm
+          · rw [eqHolds_single, e2, he]
+        · cases h
+      | none =>
+        simp only [a2] at h
+        cases a3 : isVarIn vars r2 with
+        | some v2 =>
+          obtain ⟨hv2, e2⟩ := isVarIn_some a3
+          simp only [a3] at h
+          split at h
+          · rename_i he
+            refine pick_facts hv1 hv2 l1 (fun fc ρ => ?_) (fun fc ρ => ?_) h
+            · rw [eqHolds_single, e1]; exact eq_comm
+            · rw [eqHolds_single, e2, he]; exact eq_comm
+          · cases h
+        | none => simp [a3] at h
+    | none => simp [a1'] at h
+
+theorem asEqCmp_some {ct : Formula} {c : Cmp} (h : asEqCmp ct = some c) :
+    ct = .atomic (.cmp c.1 c.2) ∧ ∃ r, c.2 = [⟨.eq, r⟩] := by
+  cases ct with
+  | atomic a =>
+    cases a with
+    | cmp t gs =>
+      simp only [asEqCmp] at h
+      split at h
+      · rename_i he
+        injection h with h; subst h
+        refine ⟨rfl, ?_⟩
+        unfold equalityComparison at he
+        split at he
+        · rename_i g
+          obtain ⟨rel, term⟩ := g
+          simp only [decide_eq_true_eq] at he
+          subst he
+          exact ⟨term, rfl⟩
+        · cases he
+      · cases h
+    | tru | fls | atom _ => simp [asEqCmp] at h
+  | not _ | bin _ _ _ | quant _ _ _ => simp [asEqCmp] at h
+
+theorem indexFrom_getElem? {α} {xs : List α} {k i : Nat} {x : α} (h : (i, x) ∈ indexFrom k xs) :
+    ∃ n, i = k + n ∧ xs[n]? = some x := by
+  induction xs generalizing k with
+  | nil => simp [indexFrom] at h
+  | cons y ys ih =>
+    simp only [indexFrom, List.mem_cons, Prod.mk.injEq] at h
+    rcases h with ⟨rfl, rfl⟩ | h
+    · exact ⟨0, rfl, rfl⟩
+    · obtain ⟨n, hn, hx⟩ := ih h
+      exact ⟨n + 1, by omega, by simpa using hx⟩
+
+theorem transitiveSearch_some {cts : List Formula} {vars : List Var} {j : Nat} {c1 c2 : Cmp}
+    {k d : Var} {dt : Cmp} (h : transitiveSearch cts vars = some (j, c1, c2, k, d, dt)) :
+    ∃ (i : Nat) (ct1 ct2 : Formula), i ≠ j ∧ cts[i]? = some ct1 ∧ cts[j]? = some ct2 ∧
+      asEqCmp ct1 = some c1 ∧ asEqCmp ct2 = some c2 ∧
+      transitiveEquality c1 c2 vars = some (k, d, dt) := by
+  unfold transitiveSearch at h
+  obtain ⟨⟨i, ct1⟩, hm1, h1⟩ := List.exists_of_findSome?_eq_some h
+  simp only at h1
+  cases e1 : asEqCmp ct1 with
+  | none => simp [e1] at h1
+  | some c1' =>
+    simp only [e1] at h1
+    obtain ⟨⟨j', ct2⟩, hm2, h2⟩ := List.exists_of_findSome?_eq_some h1
+    simp only at h2
+    cases e2 : asEqCmp ct2 with
+    | none => simp [e2] at h2
+    | some c2' =>
+      simp only [e2] at h2
+      split at h2
+      · rename_i hij
+        cases e3 : transitiveEquality c1' c2' vars with
+        | none => simp [e3] at h2
+        | some res =>
+          obtain ⟨k', d', dt'⟩ := res
+          simp only [e3, Option.some.injEq, Prod.mk.injEq] at h2
+          obtain ⟨rfl, rfl, rfl, rfl, rfl, rfl⟩ := h2
+          obtain ⟨n1, hn1, hx1⟩ := indexFrom_getElem? hm1
+          obtain ⟨n2, hn2, hx2⟩ := indexFrom_getElem? hm2
+          simp only [Nat.zero_add] at hn1 hn2
+          subst hn1; subst hn2
+          exact ⟨i, ct1, ct2, hij, hx1, hx2, e1, e2, e3⟩
+      · cases h2
+
+theorem sat_conjoinInvert (I : Interp) (ρ : Asg) : ∀ f : Formula,
+    (sat I f ρ ↔ ∀ c ∈ conjoinInvert f, sat I c ρ) := by
+  intro f
+  induction f with
+  | bin c l r ihl ihr =>
+    cases c with
+    | and =>
+      simp only [conjoinInvert, List.mem_append, sat]
+      rw [ihl, ihr]
+      constructor
+      · rintro ⟨h1, h2⟩ c (hc | hc)
+        · exact h1 c hc
+        · exact h2 c hc
+      · intro h; exact ⟨fun c hc => h c (Or.inl hc), fun c hc => h c (Or.inr hc)⟩
+    | or | imp | rimp | iff => simp [conjoinInvert]
+  | atomic _ | not _ _ | quant _ _ _ _ => simp [conjoinInvert]
+
+theorem mem_eraseIdx_of_ne {α} {l : List α} {i j : Nat} {a : α} (h : l[i]? = some a) (hij : i ≠ j) :
+    a ∈ l.eraseIdx j := by
+  induction l generalizing i j with
+  | nil => simp at h
+  | cons x xs ih =>
+    cases j with
+    | zero =>
+      cases i with
+      | zero => exact absurd rfl hij
+      | succ i => simp only [List.eraseIdx_cons_zero]; simp at h; exact List.mem_of_getElem? h
+    | succ j =>
+      simp only [List.eraseIdx_cons_succ]
+      cases i with
+      | zero => simp at h; subst h; exact List.mem_cons_self
+      | succ i =>
+        simp at h
+        exact List.mem_cons_of_mem _ (ih h (fun e => hij (by omega)))
+
+/-- the semantic core: dropping the second equation and replacing `d` by `k` -/
+theorem te_sem (I : Interp) (vars : List Var) (cts rest : List Formula) (k d : Var) (kc dt : Cmp)
+    (t : GTerm) (hk : k ∈ vars) (hd : d ∈ vars) (hsub : subsort k d = true)
+    (hkc : ∀ (fc : FcI) (ρ : Asg), EqHolds fc ρ kc ↔ k.toTerm.eval fc ρ = t.eval fc ρ)
+    (hdt : ∀ (fc : FcI) (ρ : Asg), EqHolds fc ρ dt ↔ d.toTerm.eval fc ρ = t.eval fc ρ)
+    (R1 : ∀ c ∈ rest, c ∈ cts)
+    (R2 : ∀ c ∈ cts, c ∈ rest ∨ c = .atomic (.cmp dt.1 dt.2))
+    (R3 : ∀ τ : Asg, (∀ c ∈ rest, sat I c τ) → EqHolds I.fc τ kc)
+    (R4 : Formula.atomic (.cmp dt.1 dt.2) ∈ cts) (ρ : Asg) :
+    bindEx vars (sat I ((conjoin rest).subst d k.toTerm)) ρ ↔
+      bindEx vars (fun τ => ∀ c ∈ cts, sat I c τ) ρ := by
+  have hcompat := subsort_compat hsub
+  rw [bindEx_iff, bindEx_iff]
+  constructor
+  · rintro ⟨τ, hτ, hs⟩
+    rw [sat_subst I _ d _ hcompat, sat_conjoin] at hs
+    have hin : (k.toTerm.eval I.fc τ).inSort d.sort := eval_inSort_of_compat hcompat I.fc τ
+    refine ⟨τ.set d (k.toTerm.eval I.fc τ), ⟨fun u hu => ?_, fun u hu => ?_⟩, ?_⟩
+    · have : u ≠ d := fun e => hu (e ▸ hd)
+      rw [Asg.set_other _ _ this]; exact hτ.1 u hu
+    · by_cases e : u = d
+      · subst e; rw [Asg.set_same]; exact hin
+      · rw [Asg.set_other _ _ e]; exact hτ.2 u hu
+    · have hkd : d.toTerm.eval I.fc (τ.set d (k.toTerm.eval I.fc τ)) =
+          k.toTerm.eval I.fc (τ.set d (k.toTerm.eval I.fc τ)) := by
+        have hin' : (vval τ k).inSort d.sort := by rw [← toTerm_eval' I.fc]; exact hin
+        rw [toTerm_eval', toTerm_eval', toTerm_eval']
+        rw [vval_of_inSort (by rw [Asg.set_same]; exact hin'), Asg.set_same]
+        by_cases e : k = d
+        · subst e
+          rw [vval_of_inSort (σ := τ.set k (vval τ k)) (v := k) (by rw [Asg.set_same]; exact hin'),
+            Asg.set_same]
+        · simp only [vval, Asg.set_other _ _ e]
+      have hkc' := (hkc I.fc _).mp (R3 _ hs)
+      intro c hc
+      rcases R2 c hc with hc | rfl
+      · exact hs c hc
+      · show EqHolds I.fc _ dt
+        rw [hdt, hkd]; exact hkc'
+  · rintro ⟨τ, hτ, hall⟩
+    refine ⟨τ, hτ, ?_⟩
+    rw [sat_subst I _ d _ hcompat]
+    have hrest : ∀ c ∈ rest, sat I c τ := fun c hc => hall c (R1 c hc)
+    have h1 := (hkc I.fc τ).mp (R3 τ hrest)
+    have h2 : EqHolds I.fc τ dt := hall _ R4
+    rw [hdt, toTerm_eval', vval_of_inSort (hτ.2 d hd)] at h2
+    have : τ.set d (k.toTerm.eval I.fc τ) = τ := by
+      rw [h1, ← h2]
+      funext u; by_cases e : u = d
+      · subst e; simp
+      · simp [Asg.set_other _ _ e]
+    rw [this, sat_conjoin]; exact hrest
+
+theorem simplifyTransitiveEquality_classEquiv (F : Formula) :
+    ClassEquiv (simplifyTransitiveEquality F) F := by
+  intro I ρ
+  unfold simplifyTransitiveEquality
+  split
+  · rename_i vars l r
+    cases hs : transitiveSearch (conjoinInvert (.bin .and l r)) vars with
+    | none => simp only [hs]
+    | some res =>
+      obtain ⟨j, c1, c2, k, d, dt⟩ := res
+      simp only [hs]
+      obtain ⟨i, ct1, ct2, hij, hi, hj, e1, e2, e3⟩ := transitiveSearch_some hs
+      obtain ⟨hct1, r1, hg1⟩ := asEqCmp_some e1
+      obtain ⟨hct2, r2, hg2⟩ := asEqCmp_some e2
+      obtain ⟨l1, g1⟩ := c1
+      obtain ⟨l2, g2⟩ := c2
+      simp only at hg1 hg2 hct1 hct2
+      subst hg1; subst hg2
+      obtain ⟨hk, hd, hsub, kc, t, hwhich, hsem⟩ := transitiveEquality_some e3
+      have hm1 : ct1 ∈ conjoinInvert (.bin .and l r) := List.mem_of_getElem? hi
+      have hm2 : ct2 ∈ conjoinInvert (.bin .and l r) := List.mem_of_getElem? hj
+      have hdtmem : Formula.atomic (.cmp dt.1 dt.2) ∈ conjoinInvert (.bin .and l r) := by
+        rcases hwhich with ⟨_, rfl⟩ | ⟨_, rfl⟩
+        · rw [← hct2]; exact hm2
+        · rw [← hct1]; exact hm1
+      have hkcmem : Formula.atomic (.cmp kc.1 kc.2) ∈ conjoinInvert (.bin .and l r) := by
+        rcases hwhich with ⟨rfl, _⟩ | ⟨rfl, _⟩
+        · rw [← hct1]; exact hm1
+        · rw [← hct2]; exact hm2
+      simp only [sat]
+      have hbody : ∀ τ, (sat I l τ ∧ sat I r τ) ↔ ∀ c ∈ conjoinInvert (.bin .and l r), sat I c τ :=
+        fun τ => sat_conjoinInvert I τ (.bin .and l r)
+      rw [show (fun x => sat I l x ∧ sat I r x) =
+          (fun τ => ∀ c ∈ conjoinInvert (.bin .and l r), sat I c τ) from
+        funext fun τ => propext (hbody τ)]
+      refine te_sem I vars _ _ k d kc dt t hk hd hsub (fun fc ρ => (hsem fc ρ).1)
+        (fun fc ρ => (hsem fc ρ).2) ?_ ?_ ?_ hdtmem ρ
+      · -- R1
+        intro c hc
+        split at hc
+        · exact List.mem_of_mem_eraseIdx hc
+        · exact (List.mem_filter.mp hc).1
+      · -- R2
+        intro c hc
+        split
+        · rename_i hcond
+          simp only [Bool.and_eq_true, decide_eq_true_eq] at hcond
+          obtain ⟨n, hn⟩ := List.getElem?_of_mem hc
+          by_cases e : n = j
+          · subst e
+            rw [hj] at hn; injection hn with hn
+            right
+            rw [← hn, hct2]
+            rcases hwhich with ⟨_, rfl⟩ | ⟨_, rfl⟩
+            · rfl
+            · rw [hcond.1]
+          · left; exact mem_eraseIdx_of_ne hn e
+        · by_cases e : c = .atomic (.cmp dt.1 dt.2)
+          · right; exact e
+          · left; exact List.mem_filter.mpr ⟨hc, decide_eq_true e⟩
+      · -- R3
+        intro τ hrest
+        split at hrest
+        · rename_i hcond
+          simp only [Bool.and_eq_true, decide_eq_true_eq] at hcond
+          have hc12 := hcond.1
+          have : kc = (l1, [⟨.eq, r1⟩]) := by
+            rcases hwhich with ⟨rfl, _⟩ | ⟨rfl, _⟩
+            · rfl
+            · exact hc12.symm
+          subst this
+          have := hrest ct1 (mem_eraseIdx_of_ne hi hij)
+          rw [hct1] at this
+          exact this
+        · rename_i hcond
+          by_cases e : Formula.atomic (.cmp kc.1 kc.2) = .atomic (.cmp dt.1 dt.2)
+          · -- then c1 = c2, hence the dropped comparison is reflexive
+            have hkd : kc = dt := by
+              injection e with e; injection e with ea eb
+              exact Prod.ext ea eb
+            have hc12 : (l1, [(⟨.eq, r1⟩ : Guard)]) = (l2, [⟨.eq, r2⟩]) := by
+              rcases hwhich with ⟨rfl, rfl⟩ | ⟨rfl, rfl⟩
+              · exact hkd
+              · exact hkd.symm
+            have hdt12 : dt = (l1, [⟨.eq, r1⟩]) := by
+              rcases hwhich with ⟨_, rfl⟩ | ⟨_, rfl⟩
+              · exact hc12.symm
+              · rfl
+            subst hkd
+            subst hdt12
+            have hrefl : cmpReflexive (l1, [(⟨.eq, r1⟩ : Guard)]) = true := by
+              cases hr : cmpReflexive (l1, [(⟨.eq, r1⟩ : Guard)]) with
+              | true => rfl
+              | false => exact absurd (by rw [hr, decide_eq_true hc12]; rfl) hcond
+            rw [eqHolds_single]
+            have : l1 = r1 := by simpa [cmpReflexive] using hrefl
+            rw [this]
+          · exact hrest _ (List.mem_filter.mpr ⟨hkcmem, decide_eq_true e⟩)
+  · exact Iff.rfl
+
+/-! ## restrict_quantifier_domain -/
+
+theorem FV_mem_vars {F : Formula} {v : Var} : F.FV v → v ∈ F.vars := by
+  induction F with
+  | atomic a => exact id
+  | not f ih => exact ih
+  | bin c l r ihl ihr =>
+    intro h
+    simp only [Formula.vars, mem_ext]
+    rcases h with h | h
+    · exact Or.inl (ihl h)
+    · exact Or.inr (ihr h)
+  | quant q vs f ih => intro h; exact ih h.1
+
+theorem bindAll_not_ex (L : List Var) (P : Asg → Prop) (ρ : Asg) :
+    bindAll L P ρ ↔ ¬ bindEx L (fun τ => ¬ P τ) ρ := by
+  rw [bindAll_iff, bindEx_iff]
+  constructor
+  · rintro h ⟨τ, hτ, hn⟩; exact hn (h τ hτ)
+  · intro h τ hτ
+    exact Classical.not_not.mp fun hn => h ⟨τ, hτ, hn⟩
+
+/-- semantic core, existential form: an outer general variable forced to be an integer can be
+    replaced by a fresh integer variable -/
+theorem restrict_core_ex (P : Asg → Prop) (outer : List Var) (Z K : Var) (hZ : Z.sort = .general)
+    (hK : K.sort = .integer) (hZo : Z ∈ outer) (hPK : ∀ (τ : Asg) (d : Dom), P (τ.set K d) ↔ P τ)
+    (H : ∀ τ, P τ → ∃ n, τ Z = .num n) (ρ : Asg) :
+    bindEx outer P ρ ↔
+      bindEx (outer.filter (· ≠ Z) ++ [K]) (fun τ => P (τ.set Z (.num (τ K).toInt))) ρ := by
+  have hKZ : K ≠ Z := fun e => by rw [e, hZ] at hK; cases hK
+  have hmem : ∀ u, u ∈ outer.filter (· ≠ Z) ++ [K] ↔ (u ∈ outer ∧ u ≠ Z) ∨ u = K := by
+    intro u; simp [List.mem_filter]
+  rw [bindEx_iff, bindEx_iff]
+  constructor
+  · rintro ⟨τ, hτ, hP⟩
+    obtain ⟨n, hn⟩ := H τ hP
+    refine ⟨(τ.set Z (ρ Z)).set K (.num n), ⟨fun u hu => ?_, fun u hu => ?_⟩, ?_⟩
+    · rw [hmem] at hu
+      have huK : u ≠ K := fun e => hu (Or.inr e)
+      rw [Asg.set_other _ _ huK]
+      by_cases e : u = Z
+      · subst e; rw [Asg.set_same]
+      · rw [Asg.set_other _ _ e]
+        exact hτ.1 u fun ho => hu (Or.inl ⟨ho, e⟩)
+    · by_cases e : u = K
+      · subst e; rw [Asg.set_same, hK]; trivial
+      · rw [hmem] at hu
+        rcases hu with ⟨ho, hne⟩ | hu
+        · rw [Asg.set_other _ _ e, Asg.set_other _ _ hne]; exact hτ.2 u ho
+        · exact absurd hu e
+    · show P _
+      rw [Asg.set_same]
+      have : ((τ.set Z (ρ Z)).set K (.num n)).set Z (.num (Dom.num n).toInt) = τ.set K (.num n) := by
+        funext u
+        by_cases e : u = Z
+        · subst e; rw [Asg.set_same, Asg.set_other _ _ (Ne.symm hKZ), hn]; rfl
+        · rw [Asg.set_other _ _ e]
+          by_cases e' : u = K
+          · subst e'; rw [Asg.set_same, Asg.set_same]
+          · rw [Asg.set_other _ _ e', Asg.set_other _ _ e', Asg.set_other _ _ e]
+      rw [this, hPK]; exact hP
+  · rintro ⟨τ, hτ, hP⟩
+    refine ⟨(τ.set Z (.num (τ K).toInt)).set K (if K ∈ outer then τ K else ρ K),
+      ⟨fun u hu => ?_, fun u hu => ?_⟩, (hPK _ _).mpr hP⟩
+    · have huZ : u ≠ Z := fun e => hu (e ▸ hZo)
+      by_cases e : u = K
+      · subst e; rw [Asg.set_same, if_neg hu]
+      · rw [Asg.set_other _ _ e, Asg.set_other _ _ huZ]
+        exact hτ.1 u fun hm => by
+          rw [hmem] at hm
+          rcases hm with ⟨ho, _⟩ | hm
+          · exact hu ho
+          · exact e hm
+    · by_cases e : u = K
+      · subst e; rw [Asg.set_same, if_pos hu]
+        exact hτ.2 u ((hmem u).mpr (Or.inr rfl))
+      · rw [Asg.set_other _ _ e]
+        by_cases e' : u = Z
+        · subst e'; rw [Asg.set_same, hZ]; trivial
+        · rw [Asg.set_other _ _ e']
+          exact hτ.2 u ((hmem u).mpr (Or.inl ⟨hu, e'⟩))
+
+/-- universal form -/
+theorem restrict_core_all (P : Asg → Prop) (outer : List Var) (Z K : Var) (hZ : Z.sort = .general)
+    (hK : K.sort = .integer) (hZo : Z ∈ outer) (hPK : ∀ (τ : Asg) (d : Dom), P (τ.set K d) ↔ P τ)
+    (H : ∀ τ, (¬ ∃ n, τ Z = .num n) → P τ) (ρ : Asg) :
+    bindAll outer P ρ ↔
+      bindAll (outer.filter (· ≠ Z) ++ [K]) (fun τ => P (τ.set Z (.num (τ K).toInt))) ρ := by
+  rw [bindAll_not_ex, bindAll_not_ex]
+  exact not_congr (restrict_core_ex (fun τ => ¬ P τ) outer Z K hZ hK hZo
+    (fun τ d => not_congr (hPK τ d))
+    (fun τ hn => Classical.not_not.mp fun hne => hn (H τ hne)) ρ)
+
+theorem firstReplacement_some {outer inner : List Var} {t : GTerm} {gs : List Guard} {ok : Var → Bool}
+    {Z I : Var} (h : firstReplacement outer inner t gs ok = some (Z, I)) :
+    Z ∈ outer ∧ I ∈ inner ∧ Z.sort = .general ∧ I.sort = .integer ∧ ok Z = true ∧
+      replacementMatches I Z t gs = true := by
+  unfold firstReplacement at h
+  obtain ⟨o, ho, h1⟩ := List.exists_of_findSome?_eq_some h
+  obtain ⟨i, hi, h2⟩ := List.exists_of_findSome?_eq_some h1
+  split at h2
+  · rename_i hc
+    injection h2 with h2; injection h2 with ha hb
+    subst ha; subst hb
+    simp only [Bool.and_eq_true, decide_eq_true_eq] at hc
+    exact ⟨ho, hi, hc.1.1.1, hc.1.1.2, hc.1.2, hc.2⟩
+  · cases h2
+
+/-- an inner `exists … (I$i = Z)` forces the (not rebound) general variable `Z` to be an integer -/
+theorem inner_forces_int (J : Interp) (inner : List Var) (innerF ict : Formula) (t : GTerm)
+    (gs : List Guard) (Z I : Var) (hict : ict ∈ conjoinInvert innerF) (he : ict = .atomic (.cmp t gs))
+    (hm : replacementMatches I Z t gs = true) (hZ : Z.sort = .general) (hZi : Z ∉ inner) (τ : Asg)
+    (hs : sat J (.quant .ex inner innerF) τ) : ∃ n, τ Z = .num n := by
+  simp only [sat] at hs
+  rw [bindEx_iff] at hs
+  obtain ⟨σ, hσ, hF⟩ := hs
+  have h1 := (sat_conjoinInvert J σ innerF).mp hF ict hict
+  subst he
+  have hZeq : Z = ⟨Z.name, .general⟩ := by cases Z; simp only at hZ; subst hZ; rfl
+  have hστ : σ ⟨Z.name, .general⟩ = τ Z := by rw [← hZeq]; exact hσ.1 Z hZi
+  unfold replacementMatches at hm
+  simp only [Bool.or_eq_true, Bool.and_eq_true, decide_eq_true_eq] at hm
+  rcases hm with ⟨rfl, rfl⟩ | ⟨rfl, rfl⟩
+  · simp only [sat, AtomicF.sat, cmpChain, Rel.holds, GTerm.eval, and_true] at h1
+    exact ⟨_, by rw [← hστ]; exact h1⟩
+  · simp only [sat, AtomicF.sat, cmpChain, Rel.holds, GTerm.eval, and_true] at h1
+    exact ⟨_, by rw [← hστ]; exact h1.symm⟩
+
+theorem restrictExistsSearch_some {outer : List Var} {cts : List Formula} {Z I : Var}
+    (h : restrictExistsSearch outer cts = some (Z, I)) :
+    ∃ inner innerF ict t gs, Formula.quant .ex inner innerF ∈ cts ∧ ict ∈ conjoinInvert innerF ∧
+      ict = .atomic (.cmp t gs) ∧
+      firstReplacement outer inner t gs (fun ovar => !(ovar ∈ inner)) = some (Z, I) := by
+  unfold restrictExistsSearch at h
+  obtain ⟨ct, hct, h1⟩ := List.exists_of_findSome?_eq_some h
+  split at h1
+  · rename_i inner innerF
+    obtain ⟨ict, hict, h2⟩ := List.exists_of_findSome?_eq_some h1
+    split at h2
+    · rename_i t gs
+      split at h2
+      · exact ⟨inner, innerF, _, t, gs, hct, hict, rfl, h2⟩
+      · cases h2
+    · cases h2
+  · cases h1
+
+/-- the replacement step, given the semantic side condition of the respective form -/
+theorem replacementApply_sat (J : Interp) (q : Quant) (outer : List Var) (f : Formula) (Z I : Var)
+    (hZ : Z.sort = .general) (hZo : Z ∈ outer)
+    (H : match q with
+      | .ex => ∀ τ, sat J f τ → ∃ n, τ Z = .num n
+      | .all => ∀ τ, (¬ ∃ n, τ Z = .num n) → sat J f τ) (ρ : Asg) :
+    sat J (replacementApply I Z (.quant q outer f)) ρ ↔ sat J (.quant q outer f) ρ := by
+  simp only [replacementApply]
+  generalize hfv : (chooseFresh ((Formula.quant q outer f).vars.map (·.name))
+    (String.ofList (I.name.toList.take 1)) 1).headD (String.ofList (I.name.toList.take 1)) = fvar
+  have hfresh : fvar ∉ (Formula.quant q outer f).vars.map (·.name) := by
+    rw [← hfv]; exact chooseFresh_one _ _
+  have hKfv : ¬ f.FV ⟨fvar, .integer⟩ := fun hfvv =>
+    hfresh (List.mem_map.mpr ⟨_, (show _ ∈ f.vars from FV_mem_vars hfvv), rfl⟩)
+  have hPK : ∀ (τ : Asg) (d : Dom), sat J f (τ.set ⟨fvar, .integer⟩ d) ↔ sat J f τ := by
+    intro τ d
+    apply sat_agree
+    intro v hv
+    have : v ≠ ⟨fvar, .integer⟩ := fun e => hKfv (e ▸ hv)
+    rw [Asg.set_other _ _ this]
+  have hcompat : SortCompatible Z (.int (.var fvar)) :=
+    ⟨fun h => (by rw [hZ] at h; cases h), fun h => (by rw [hZ] at h; cases h)⟩
+  have hsub : ∀ τ, sat J (f.subst Z (.int (.var fvar))) τ ↔
+      sat J f (τ.set Z (.num (τ ⟨fvar, .integer⟩).toInt)) := by
+    intro τ; rw [sat_subst J f Z _ hcompat]; rfl
+  cases q with
+  | ex =>
+    simp only [sat]
+    rw [show sat J (f.subst Z (.int (.var fvar))) = (fun τ => sat J f (τ.set Z (.num (τ ⟨fvar, .integer⟩).toInt)))
+      from funext fun τ => propext (hsub τ)]
+    exact (restrict_core_ex (sat J f) outer Z ⟨fvar, .integer⟩ hZ rfl hZo hPK H ρ).symm
+  | all =>
+    simp only [sat]
+    rw [show sat J (f.subst Z (.int (.var fvar))) = (fun τ => sat J f (τ.set Z (.num (τ ⟨fvar, .integer⟩).toInt)))
+      from funext fun τ => propext (hsub τ)]
+    exact (restrict_core_all (sat J f) outer Z ⟨fvar, .integer⟩ hZ rfl hZo hPK H ρ).symm
+
+theorem restrictQuantifierDomain_classEquiv (F : Formula) :
+    ClassEquiv (restrictQuantifierDomain F) F := by
+  intro J ρ
+  unfold restrictQuantifierDomain
+  split
+  · rename_i outer l r
+    cases hs : restrictExistsSearch outer (conjoinInvert l ++ conjoinInvert r) with
+    | none => simp only
+    | some res =>
+      obtain ⟨Z, I⟩ := res
+      simp only
+      obtain ⟨inner, innerF, ict, t, gs, hct, hict, he, hfirst⟩ := restrictExistsSearch_some hs
+      obtain ⟨hZo, _, hZ, _, hok, hm⟩ := firstReplacement_some hfirst
+      have hZi : Z ∉ inner := by simpa using hok
+      refine replacementApply_sat J .ex outer (.bin .and l r) Z I hZ hZo ?_ ρ
+      intro τ hτ
+      have := (sat_conjoinInvert J τ (.bin .and l r)).mp hτ _ hct
+      exact inner_forces_int J inner innerF ict t gs Z I hict he hm hZ hZi τ this
+  · rename_i outer inner innerF rhs
+    simp only
+    split
+    · rename_i Z I hhit
+      obtain ⟨ct, hct, h1⟩ := List.exists_of_findSome?_eq_some hhit
+      split at h1
+      · rename_i t gs
+        split at h1
+        · obtain ⟨hZo, _, hZ, _, hok, hm⟩ := firstReplacement_some h1
+          have hZi : Z ∉ inner := by
+            simp only [Bool.and_eq_true, Bool.not_eq_true', decide_eq_false_iff_not] at hok
+            exact hok.1
+          refine replacementApply_sat J .all outer _ Z I hZ hZo ?_ ρ
+          intro τ hn
+          simp only [sat]
+          intro hante
+          exact absurd (inner_forces_int J inner innerF _ t gs Z I hct rfl hm hZ hZi τ hante) hn
+        · cases h1
+      · cases h1
+    · exact Iff.rfl
   · exact Iff.rfl
 
 end Anthem
